@@ -28,7 +28,7 @@ def R.SafeOut : R Out → Prop
   | .val o => o.Safe
   | .stop o => o.Safe
 
-theorem R.safeOut_run (x : R Out) : x.SafeOut ↔ x.run.Safe := by cases x <;> simp [R.SafeOut, R.run]
+theorem R_safeOut_run (x : R Out) : x.SafeOut ↔ x.run.Safe := by cases x <;> simp [R.SafeOut, R.run]
 
 theorem safeOut_bind {α} (x : R α) (f : α → R Out) (hx : x.SafeR) (hf : ∀ a, (f a).SafeOut) : (x >>= f).SafeOut := by
   cases x with
@@ -455,7 +455,7 @@ request number and every session state (no debugger / loaded / stopped / exited,
 decoding yields a success, an error response or a call into the debugger — never a panic, an abort, a signal to the
 adapter's own process group or a dropped session. -/
 theorem C08_dap_args_total : C08_dap_args_total_full repaired :=
-  fun s seq c a => (R.safeOut_run _).mp (decode_safe repaired repaired_allRepaired s seq c a)
+  fun s seq c a => (R_safeOut_run _).mp (decode_safe repaired repaired_allRepaired s seq c a)
 
 example : (decode repaired {} 1 .completions (.obj [(k!"text", .str ['d', 'í']), (k!"column", .num 3)])).run = .ok := by decide
 
@@ -499,8 +499,8 @@ theorem C08_dap_args_witnesses_repaired :
     (decode repaired {} 1 .terminateThreads (.obj [(k!"threadIds", .arr [.num 0])])).run = .err "terminateThreads: threadIds must be positive" := by
   decide
 
-theorem R.val_bind {α β} (a : α) (f : α → R β) : (R.val a >>= f) = f a := rfl
-theorem R.stop_bind {α β} (o : Out) (f : α → R β) : ((R.stop o : R α) >>= f) = R.stop o := rfl
+theorem R_val_bind {α β} (a : α) (f : α → R β) : (R.val a >>= f) = f a := rfl
+theorem R_stop_bind {α β} (o : Out) (f : α → R β) : ((R.stop o : R α) >>= f) = R.stop o := rfl
 
 /-- the string `parse_data_breakpoint_id` hands to the parsers -/
 def dataIdExpr (d : List Char) : List Char :=
@@ -605,12 +605,12 @@ theorem decEvaluate_partial (s : Sess) (seq : Int) (a : J) (h : benign s .evalua
   unfold decEvaluate
   simp only [benign] at h
   cases he : getStr a k!"expression" with
-  | none => simp only [orErr, R.stop_bind]; dap_safe3
+  | none => simp only [orErr, R_stop_bind]; dap_safe3
   | some e =>
     rw [he] at h
     have hP : (parseExpr asFound e).SafeR := safeR_parseExpr_inRange _ _ h
     clear h
-    simp only [orErr, R.val_bind]
+    simp only [orErr, R_val_bind]
     dap_safe3
 
 theorem decSetExpression_partial (s : Sess) (a : J) (h : benign s .setExpression a = true) :
@@ -618,12 +618,12 @@ theorem decSetExpression_partial (s : Sess) (a : J) (h : benign s .setExpression
   unfold decSetExpression
   simp only [benign] at h
   cases he : getStr a k!"expression" with
-  | none => simp only [orErr, R.stop_bind]; dap_safe3
+  | none => simp only [orErr, R_stop_bind]; dap_safe3
   | some e =>
     rw [he] at h
     have hP : (parseExpr asFound e).SafeR := safeR_parseExpr_inRange _ _ h
     clear h
-    simp only [orErr, R.val_bind]
+    simp only [orErr, R_val_bind]
     dap_safe3
 
 theorem decReadMemory_partial (s : Sess) (seq : Int) (a : J) (h : benign s .readMemory a = true) :
@@ -631,11 +631,11 @@ theorem decReadMemory_partial (s : Sess) (seq : Int) (a : J) (h : benign s .read
   unfold decReadMemory
   simp only [benign, Bool.or_eq_true, bne_iff_ne, ne_eq, decide_eq_true_eq] at h
   cases hc : getI64 a k!"count" with
-  | none => simp only [orErr, R.stop_bind]; dap_safe3
+  | none => simp only [orErr, R_stop_bind]; dap_safe3
   | some c =>
     rw [hc] at h
     simp only [Option.getD_some] at h
-    simp only [orErr, R.val_bind]
+    simp only [orErr, R_val_bind]
     by_cases hl : s.dbg = .live
     · have hA : (alloc asFound c.toNat).SafeR := by
         rcases h with h | h
@@ -651,14 +651,14 @@ theorem decDisassemble_partial (s : Sess) (seq : Int) (a : J) (h : benign s .dis
   unfold decDisassemble
   simp only [benign, Bool.and_eq_true, Bool.or_eq_true, bne_iff_ne, ne_eq, decide_eq_true_eq] at h
   cases hc : getI64 a k!"instructionCount" with
-  | none => simp only [orErr, R.stop_bind]; dap_safe3
+  | none => simp only [orErr, R_stop_bind]; dap_safe3
   | some c =>
     rw [hc] at h
     simp only [Option.getD_some] at h
     obtain ⟨h1, h2⟩ := h
     have hG := safeR_addGuard_small asFound _ h1
     clear h1
-    simp only [orErr, R.val_bind]
+    simp only [orErr, R_val_bind]
     by_cases hl : s.dbg = .live
     · have hA : (alloc asFound (max (min ((c.toNat + ((getI64 a k!"instructionOffset").getD 0).natAbs + 16) % 2 ^ 64 * 16) (2 ^ 64 - 1)) 16)).SafeR := by
         rcases h2 with h2 | h2
@@ -675,15 +675,15 @@ theorem decTerminateThreads_partial (s : Sess) (a : J) (h : benign s .terminateT
   simp only [benign] at h
   apply safeOut_bind _ _ (safeR_rejectIf _ _); intro _
   cases hg : a.get k!"threadIds" with
-  | none => simp [pure, R.val_bind, R.SafeOut, Out.Safe]
+  | none => simp [pure, R_val_bind, R.SafeOut, Out.Safe]
   | some v =>
     rw [hg] at h
     simp only [Option.bind_some] at h
     cases hv : v.arr? with
-    | none => simp [hv, orErr, R.stop_bind, R.SafeOut, Out.Safe]
+    | none => simp [hv, orErr, R_stop_bind, R.SafeOut, Out.Safe]
     | some ids =>
       rw [hv] at h
-      simp only [hv, orErr, R.val_bind]
+      simp only [hv, orErr, R_val_bind]
       cases ids with
       | nil => simp [pure, R.SafeOut, Out.Safe]
       | cons t rest =>
@@ -714,7 +714,7 @@ theorem decode_quirk_irrelevant (q q' : Q) (s : Sess) (seq : Int) (c : Cmd) (a :
 state — is decoded without a fault. -/
 theorem C08_dap_args_total_partial (s : Sess) (seq : Int) (c : Cmd) (a : J) (h : benign s c a = true) :
     (decode asFound s seq c a).run.Safe := by
-  rw [← R.safeOut_run]
+  rw [← R_safeOut_run]
   cases c
   case evaluate => exact decEvaluate_partial s seq a h
   case setExpression => exact decSetExpression_partial s a h
@@ -734,7 +734,7 @@ theorem C08_dap_args_total_partial (s : Sess) (seq : Int) (c : Cmd) (a : J) (h :
     | none => simp [orErr, R.SafeOut, Out.Safe, bind]
     | some n =>
       rw [hn] at h
-      simp only [orErr, R.val_bind]
+      simp only [orErr, R_val_bind]
       exact safeOut_bind _ _ (safeR_parseDataBpExpr_inRange n h) (fun _ => by simp [pure, R.SafeOut, Out.Safe])
   all_goals
     rw [decode_quirk_irrelevant asFound repaired s seq _ a (by decide)]
@@ -758,7 +758,7 @@ theorem stepMsg_safe (q : Q) (hq : q.AllRepaired) (hg : q.envelopeGuard = true) 
     · dsimp only
       split
       · trivial
-      · exact (R.safeOut_run _).mp (decode_safe q hq _ _ _ _)
+      · exact (R_safeOut_run _).mp (decode_safe q hq _ _ _ _)
 
 /-- the full statement for sessions: whatever messages arrive (well-formed or not) and whatever the debugger answers
 in between (`Hint`), no message is answered with a fault -/
